@@ -164,6 +164,10 @@ public:
         Vec zero_v(a.vec_size, 0);
         res.dict_[zero_v] = 1_z;
 
+        // a**0 == 1 (the loop below never reaches p == 1 from p == 0)
+        if (p == 0)
+            return res;
+
         while (p != 1) {
             if (p % 2 == 0) {
                 tmp = tmp * tmp;
